@@ -139,9 +139,8 @@ def Builder.attributeE (b : Builder) (pfx loc value : StrSpan) : Step Builder :=
       match parseContentE true value.start value.text with
       | .error e => .err (ParseErr.ofContent e) b.env
       | .ok v =>
-        let v' := if loc.text == ['i', 'd'] && pfx.text == ['x', 'm', 'l'] then normalizeXmlId v else v
         let ab : AttributeBuilder :=
-          { pfx := pfx.text, name := loc.text, value := v',
+          { pfx := pfx.text, name := loc.text, value := v,
             nameSpan := Span.fromPrefixName pfx loc, valueSpan := value.span, prefixSpan := pfx.span }
         .ok { b with eb := some { eb with attributes := eb.attributes ++ [ab] } }
 
